@@ -56,10 +56,27 @@ impl LspProject {
                     .collect());
             }
 
+            // The conversion yields absolute positions. The protocol wants
+            // each token relative to the token before it.
+            let mut prev_line = 0;
+            let mut prev_start = 0;
             return Ok(result
                 .0
                 .into_iter()
                 .filter_map(|tok| LspTokenType(tok).into())
+                .map(|mut tok: SemanticToken| {
+                    let line = tok.delta_line;
+                    let start = tok.delta_start;
+                    tok.delta_line = line - prev_line;
+                    tok.delta_start = if line == prev_line {
+                        start - prev_start
+                    } else {
+                        start
+                    };
+                    prev_line = line;
+                    prev_start = start;
+                    tok
+                })
                 .collect());
         } else {
             error!("URL must be convertible to a file path {}", url);
